@@ -942,7 +942,7 @@ impl<'a> GExec<'a> {
         let mut entries = vec![];
         let mut auth_ok = false;
         let who: Option<usize> = match auth {
-            AuthVar::Right => caller_p,
+            AuthVar::Right | AuthVar::Everyone => caller_p,
             AuthVar::Counterparty => Some(6),
             AuthVar::Owner => Some(self.gws[g].m.owner),
             AuthVar::Stranger | AuthVar::Former | AuthVar::OtherRole => Some(P_STRANGER),
